@@ -558,7 +558,7 @@ class Tr:
                 if n == "_":
                     self.fn.ntmp += 1
                     names[i] = "unused%d" % self.fn.ntmp
-            comp = {"StrPair": ["Str", "Str"], "Str3": ["Str", "Str", "Str"]}.get(ty)
+            comp = {"StrPair": ["Str", "Str"], "Str3": ["Str", "Str", "Str"], "OptPair": ["StrOpt", "Str"]}.get(ty)
             if comp is None or len(comp) != len(names):
                 raise Unsupported("assignment " + _src(s))
             env2 = dict(env)
@@ -726,11 +726,16 @@ class Tr:
             pre += "let %s : %s := %s\n" % (s.target.id, LEAN_TYPE[vty], "some item" if vty == "ConOpt" else "item")
         body, rho_b = self._in_body(sty, state, lambda fall_b: self.block(s.body, env_b, fall_b))
         params, args = self._sig(captured, env)
+        if "item" in captured:
+            # an enclosing loop's variable is called `item` too: the element of this loop gets its own name
+            pre = pre.replace(":= item\n", ":= item_%d\n" % k).replace("item.1", "item_%d.1" % k).replace("item.2", "item_%d.2" % k) \
+                     .replace("some item\n", "some item_%d\n" % k)
+        iname = "item_%d" % k if "item" in captured else "item"
         bname = "%s_for%d_body" % (fn.lean_name, k)
         aname = "%s_for%d_after" % (fn.lean_name, k)
         unpack = ("let %s := st\n" % stpat) if state else ""
-        fn.defs.append("/-- body of `for %s in %s:` -/\ndef %s %s%s (item : %s) (st : %s) : Except ERR (%s) :=\n%s\n".replace("ERR", self.err)
-                       % (_src(s.target), _src(s.iter), bname, self.hdr, params, LEAN_TYPE[item_ty], sty, rho_b, _ind(unpack + pre + body)))
+        fn.defs.append("/-- body of `for %s in %s:` -/\ndef %s %s%s (%s : %s) (st : %s) : Except ERR (%s) :=\n%s\n".replace("ERR", self.err)
+                       % (_src(s.target), _src(s.iter), bname, self.hdr, params, iname, LEAN_TYPE[item_ty], sty, rho_b, _ind(unpack + pre + body)))
         after = self.block(rest, env, fall)
         fn.defs.append("/-- the statements after `for %s in %s:` -/\ndef %s %s%s (st : %s) : Except ERR (%s) :=\n%s\n".replace("ERR", self.err)
                        % (_src(s.target), _src(s.iter), aname, self.hdr, params, sty, self.rho, _ind(unpack + after)))
